@@ -205,14 +205,14 @@ MBI_FAMILY = "mimxrt595s"
 
 
 def _mbi_cfg(n, ex):
-    path = os.path.join(job["dir"], f"app{n}.bin")
+    path = os.path.join(job["dir"], "mbi_app.bin")
     with open(path, "wb") as f:
         f.write(app_binary(n))
     cfg = {
         "family": MBI_FAMILY,
         "outputImageExecutionTarget": "RAM",
         "outputImageAuthenticationType": "Encrypted + Signed",
-        "masterBootOutputFile": os.path.join(job["dir"], f"mbi{n}.bin"),
+        "masterBootOutputFile": os.path.join(job["dir"], "mbi.bin"),
         "inputImageFile": path,
         "outputImageExecutionAddress": 0x80000,
         "enableHwUserModeKeys": False,
@@ -350,14 +350,14 @@ def bee_ctor(n, ex):
 
 
 def bee_config(n, ex):
-    path = os.path.join(job["dir"], f"bee_in{n}.bin")
+    path = os.path.join(job["dir"], "bee_in.bin")
     with open(path, "wb") as f:
         f.write(app_binary(n))
     cfg = {
         "family": "mimxrt1050",
         "input_binary": path,
         "output_folder": job["dir"],
-        "output_name": f"bee{n}",
+        "output_name": "bee",
         "base_address": 0x60001000,
         "engine_selection": "engine0",
         "bee_engine": [{"bee_cfg": {"user_key": "0x" + USER["bee_sw_key"].hex(),
@@ -401,7 +401,7 @@ def bee_export(obj, sw_key_hint):
 
 # ---------------------------------------------------------------------------------------------- HAB (encrypted, through the configuration)
 def hab_config(n, ex):
-    d = os.path.join(job["dir"], f"hab{n}")
+    d = os.path.join(job["dir"], "hab")  # the same template (same SecretKey_Name, same paths) for every build, as in a build loop
     os.makedirs(d, exist_ok=True)
     app = os.path.join(d, "app.bin")
     with open(app, "wb") as f:
@@ -423,21 +423,21 @@ def hab_config(n, ex):
         "options": {"flags": 0x0C, "startAddress": 0x60000000, "ivtOffset": 0x1000, "initialLoadSize": 0x2000, "entryPointAddress": 0x600022C1,
                     "signatureTimestamp": "16/05/2023 12:34:08"},
         "sections": [
-            {"Header": {"Header_Version": "4.2", "Header_HashAlgorithm": "sha256", "Header_Engine": "ANY", "Header_EngineConfiguration": 0,
+            {"Header": {"Header_Version": "4.5", "Header_HashAlgorithm": "sha256", "Header_Engine": "ANY", "Header_EngineConfiguration": 0,
                         "Header_CertificateFormat": "x509", "Header_SignatureFormat": "CMS"}},
-            {"InstallSRK": {"InstallSRK_Table": os.path.join(HAB, "SRK_hash.bin"), "InstallSRK_SourceIndex": 0}},
-            {"InstallCSFK": {"InstallCSFK_File": os.path.join(HAB, "CSF1_1_sha256_2048_65537_v3_usr_crt.pem"), "InstallCSFK_CertificateFormat": "x509"}},
-            {"AuthenticateCSF": {"AuthenticateCsf_PrivateKeyFile": os.path.join(HAB, "CSF1_1_sha256_2048_65537_v3_usr_key.pem")}},
-            {"InstallKey": {"InstallKey_File": os.path.join(HAB, "IMG1_1_sha256_2048_65537_v3_usr_crt.pem"), "InstallKey_VerificationIndex": 0, "InstallKey_TargetIndex": 2}},
+            {"InstallSRK": {"InstallSRK_Table": os.path.join(HAB, "SRK_1_2_3_4_table.bin"), "InstallSRK_SourceIndex": 0}},
+            {"InstallCSFK": {"InstallCSFK_File": os.path.join(HAB, "CSF1_1_sha256_secp521r1_v3_usr_crt.pem"), "InstallCSFK_CertificateFormat": "x509"}},
+            {"AuthenticateCSF": {"AuthenticateCsf_PrivateKeyFile": os.path.join(HAB, "CSF1_1_sha256_secp521r1_v3_usr_key.pem")}},
+            {"InstallKey": {"InstallKey_File": os.path.join(HAB, "IMG1_1_sha256_secp521r1_v3_usr_crt.pem"), "InstallKey_VerificationIndex": 0, "InstallKey_TargetIndex": 2}},
             {"AuthenticateData": {"AuthenticateData_VerificationIndex": 2, "AuthenticateData_Engine": "ANY", "AuthenticateData_EngineConfiguration": 0,
-                                  "AuthenticateData_PrivateKeyFile": os.path.join(HAB, "IMG1_1_sha256_2048_65537_v3_usr_key.pem")}},
+                                  "AuthenticateData_PrivateKeyFile": os.path.join(HAB, "IMG1_1_sha256_secp521r1_v3_usr_key.pem")}},
             {"SecretKey": secret},
             {"Decrypt": decrypt},
         ],
     }
     conf = HabContainer.transform_bd_configuration(cfg)
     hab = HabContainer.load_from_config(conf, search_paths=[d])
-    hab._c17_dir = d
+    hab._c17_dekfile = open(dekfile, "rb").read()  # the DEK file is an output of THIS build (a later build overwrites it)
     return hab
 
 
@@ -449,7 +449,7 @@ def hab_attrs(obj, fields):
 
 def hab_export(obj):
     data = obj.export()
-    dek = open(os.path.join(obj._c17_dir, "dek.bin"), "rb").read()  # the DEK file is part of what the build writes out
+    dek = obj._c17_dekfile
     # export() starts at the IVT (tag 0xD1): word 5 = own address, word 6 = CSF address; MAC structure = tag 0xAC, len16, ver, 0, nonce_len, 0, mac_len, nonce, mac
     if data[0] != 0xD1:
         raise RuntimeError("HAB IVT not found at the configured offset")
@@ -572,7 +572,8 @@ for i, st in enumerate(job["steps"]):
     rec = {"op": st["op"], "art": st["art"]}
     try:
         if st["op"] == "Construct":
-            obj = BUILD[(st["kind"], st["how"])](st["art"], st["ex"])
+            # st["variant"]: which input image the build gets (0 / 1): in a loop over one template some builds repeat an earlier input, others do not
+            obj = BUILD[(st["kind"], st["how"])](st.get("variant", st["art"]), st["ex"])
             ARTS[st["art"]] = (st["kind"], obj)
             f, ctr = attrs(st["kind"], obj)
         else:
